@@ -60,6 +60,9 @@ impl LabProp for P04 {
         if !no_user_semantics(g) {
             return Err("has ?n or !n");
         }
+        if !crossing_shapes(g).is_empty() {
+            return Err("node creation crossing a marker or an undoable attempt");
+        }
         if !plain_cfg(g) && (g.rules.iter().any(|r| r.body.is_none()) || g.any_regex(&|r| matches!(r, Regex::Return))) {
             return Err("prioritised grammar with empty rule or & (not modelled by the interpreter)");
         }
